@@ -19,14 +19,17 @@ VARIABLES
   okRecs,    \* history: number of records in successfully transmitted data messages (limbs)
   failAdv,   \* history: how much failed sends advanced the counter (deviation, see SendDataFailsLate)
   nmsg,      \* history: number of messages transmitted
-  open       \* connection usable
+  open,      \* connection usable
+  nextTid,   \* last template id handed out by NewTemplateID (starts at 255)
+  jsonMode   \* the process sends JSON records instead of IPFIX messages (fixed at creation)
 
-exvars == << tmpl, seq, dom, okRecs, failAdv, nmsg, open >>
+exvars == << tmpl, seq, dom, okRecs, failAdv, nmsg, open, nextTid, jsonMode >>
 
 EmptyFn == [x \in {} |-> 0]
 Known(t) == t \in DOMAIN tmpl
 
 ExInit(d, s0) == /\ tmpl = EmptyFn /\ seq = s0 /\ dom = d /\ okRecs = s0 /\ failAdv = 0 /\ nmsg = 0 /\ open = TRUE
+                 /\ nextTid = 255 /\ jsonMode = FALSE
 
 SetRecBytes(s) == Flat([i \in 1..Len(s.recs) |-> RecBytes(s.recs[i])])
 SetBytes(s) == BE2(s.hdrId) \o BE2(SetHdrLen + Len(SetRecBytes(s))) \o SetRecBytes(s)
@@ -61,13 +64,13 @@ SendTemplateOK(s) ==
   /\ open /\ s.stype = "template" /\ MsgLen(s) <= MaxLen
   /\ tmpl' = Register(tmpl, s.recs)
   /\ nmsg' = nmsg + 1
-  /\ UNCHANGED << seq, dom, okRecs, failAdv, open >>
+  /\ UNCHANGED << seq, dom, okRecs, failAdv, open, nextTid, jsonMode >>
 
 \* Template set, too long: error, nothing transmitted (the table is updated all the same).
 SendTemplateTooLong(s) ==
   /\ s.stype = "template" /\ MsgLen(s) > MaxLen
   /\ tmpl' = Register(tmpl, s.recs)
-  /\ UNCHANGED << seq, dom, okRecs, failAdv, nmsg, open >>
+  /\ UNCHANGED << seq, dom, okRecs, failAdv, nmsg, open, nextTid, jsonMode >>
 
 \* Data set failing the sanity check: error, nothing transmitted, nothing changes.
 SendDataInsane(s) == s.stype = "data" /\ ~AllSane(s) /\ UNCHANGED exvars
@@ -78,7 +81,7 @@ SendDataOK(s) ==
   /\ seq' = AddLimbs(seq, Len(s.recs))
   /\ okRecs' = AddLimbs(okRecs, Len(s.recs))
   /\ nmsg' = nmsg + 1
-  /\ UNCHANGED << tmpl, dom, failAdv, open >>
+  /\ UNCHANGED << tmpl, dom, failAdv, open, nextTid, jsonMode >>
 
 \* DEVIATION (named): a sane data set that is too long (or hits a closed connection) fails AFTER
 \* the counter was advanced.  The property excludes failed attempts from the sequence statement;
@@ -87,9 +90,22 @@ SendDataFailsLate(s) ==
   /\ s.stype = "data" /\ AllSane(s) /\ (MsgLen(s) > MaxLen \/ ~open)
   /\ seq' = AddLimbs(seq, Len(s.recs))
   /\ failAdv' = failAdv + Len(s.recs)
-  /\ UNCHANGED << tmpl, dom, okRecs, nmsg, open >>
+  /\ UNCHANGED << tmpl, dom, okRecs, nmsg, open, nextTid, jsonMode >>
 
-Close == open' = FALSE /\ UNCHANGED << tmpl, seq, dom, okRecs, failAdv, nmsg >>
+Close == open' = FALSE /\ UNCHANGED << tmpl, seq, dom, okRecs, failAdv, nmsg, nextTid, jsonMode >>
+
+\* NewTemplateID: the next id, starting at 256 (16-bit counter)
+NewTemplateID == /\ nextTid' = (nextTid + 1) % 65536
+                 /\ UNCHANGED << tmpl, seq, dom, okRecs, failAdv, nmsg, open, jsonMode >>
+
+\* JSON-record mode: a template set only updates the table (nothing is written, no error);
+\* a sane data set produces one JSON document per record, in order; the counter is not involved.
+SendJSONTemplate(s) ==
+  /\ jsonMode /\ s.stype = "template"
+  /\ tmpl' = Register(tmpl, s.recs)
+  /\ UNCHANGED << seq, dom, okRecs, failAdv, nmsg, open, nextTid, jsonMode >>
+SendJSONData(s) == jsonMode /\ s.stype = "data" /\ AllSane(s) /\ UNCHANGED exvars
+SendJSONInsane(s) == jsonMode /\ s.stype = "data" /\ ~AllSane(s) /\ UNCHANGED exvars
 
 ---------------------------------------------------------------------------
 (* Properties of the design *)
